@@ -242,13 +242,35 @@ class FractionScalar(AbstractValueWithQuantityObject):
         # this is exactly the same comparison performed by the Scalar, however as they don't share
         # a base class where this method would fit, it was decided to implement it here, instead
         # of creating a base class just because of this method
+        v1, v2 = self._GetComparableValues(other)
+        return v1 < v2
+
+    def _GetComparableValues(self, other: Any) -> Tuple[Any, Any]:
         if self.quantity_type != other.quantity_type:
             msg = "can not compare scalars of different quantity types: %r != %r"
-            raise TypeError(msg % self.quantity_type, other.quantity_type)
+            raise TypeError(msg % (self.quantity_type, other.quantity_type))
 
-        v1 = self._value
-        v2 = other.GetValue(self.unit)
-        return v1 < v2
+        if self.unit == other.unit:
+            return self._value, other.GetValue()
+
+        # Both values are converted to the same unit (the base unit) so that comparing a with b
+        # and b with a always compares the same numbers.
+        base_unit = self._unit_database.GetBaseUnit(self.quantity_type)
+        return self.GetValue(base_unit), other.GetValue(base_unit)
+
+    # Note: the comparisons below are explicitly defined (instead of relying on total_ordering)
+    # because __eq__ also considers the unit, whereas the ordering considers the converted value.
+    def __le__(self, other: Any) -> bool:
+        v1, v2 = self._GetComparableValues(other)
+        return v1 <= v2
+
+    def __gt__(self, other: Any) -> bool:
+        v1, v2 = self._GetComparableValues(other)
+        return v1 > v2
+
+    def __ge__(self, other: Any) -> bool:
+        v1, v2 = self._GetComparableValues(other)
+        return v1 >= v2
 
     # RegisterFractionScalarConversion -----------------------------------------
     @classmethod
